@@ -70,6 +70,14 @@ CHECKS["C14"] = dict(
     note="'Names the file' is asserted only for errors raised while the loader was reading the damaged file in that call. Truncation is at YAML item boundaries. Trusted: the file-read hook, explicit mtimes (no wall clock), TLC.",
 )
 
+CHECKS["C08"] = dict(
+    category="model_checking",
+    technique="TLA+ interface state machine (Api.tla): every entry point x argument class enabled in every state; TLC-exported call sequences executed from four start states with crash detection; TLC validates every call (Trace_Api.tla: Ok/Err within the time bound) and the recovery memo (Trace_Memo.tla)",
+    text="TLC enumerates every (entry point, argument class) call, every ordered pair and simulated 7-call sequences over 16 entry points and their argument classes (malformed/odd/huge/deep MathML, wrong-kind preference values, unknown commands, key codes x modifiers, stale/unknown ids, huge offsets and positions). Each behaviour runs in the real library from four start states; a panic, abort, stack overflow or time-out is the violation, and after each behaviour a valid expression must give exactly what a fresh session gives under the same preference read-back. Sequences longer than 2 are sampled.",
+    design_ref="DESIGN.md section 5 C08",
+    note="Non-termination is judged by a 15 s bound per call; stack overflow by process death (re-run one script per process). Expressions <= 400 nodes / depth <= 60 on an 8 MiB stack. The model's prediction of which calls err is refinement level only.",
+)
+
 NOT_YET = {}
 
 
